@@ -284,6 +284,12 @@ class Package:
                 if self._value_guarded(mn, node, n, n.right, 'shift'):
                     continue
                 out.append(Site(full, 'shift', 'ValueError', n, u(n)))
+            elif isinstance(n, ast.Subscript) and isinstance(n.ctx, ast.Load) and isinstance(n.value, ast.Name) and \
+                    not isinstance(n.slice, (ast.Constant, ast.Slice)) and n.value.id in self._table_names(mn):
+                # a module-level lookup table indexed by a computed key: KeyError unless membership was tested
+                if self._membership_guarded(mn, node, n):
+                    continue
+                out.append(Site(full, 'lookup', 'KeyError', n, u(n)))
         # several textually identical sites in one function get an ordinal so that each is judged on its own
         out.sort(key=lambda s: (s.lineno, getattr(s.node, 'col_offset', 0)))
         counts = {}
@@ -295,6 +301,36 @@ class Package:
                 seen[s.key] = seen.get(s.key, 0) + 1
                 s.text = '%s #%d' % (s.text, seen[s.key])
         return out
+
+    def _table_names(self, mn):
+        cache = self.__dict__.setdefault('_tables', {})
+        if mn not in cache:
+            names = set()
+            for st in self.mods[mn].tree.body:
+                if isinstance(st, ast.Assign) and len(st.targets) == 1 and isinstance(st.targets[0], ast.Name) and isinstance(st.value, ast.Dict):
+                    names.add(st.targets[0].id)
+            cache[mn] = names
+        return cache[mn]
+
+    def _membership_guarded(self, mn, fnode, sub):
+        """`T[k]` under `if k in T:` (same texts), or inside a try with a KeyError/LookupError/Exception handler"""
+        m = self.mods[mn]
+        key, tab = u(sub.slice), u(sub.value)
+        p = m.parents.get(sub)
+        child = sub
+        while p is not None and p is not fnode:
+            if isinstance(p, ast.If) and child in p.body or isinstance(p, ast.If) and any(child is x for x in p.body):
+                t = u(p.test).replace(' ', '')
+                if ('%s in %s' % (key, tab)).replace(' ', '') in t and 'notin' not in t:
+                    return True
+            if isinstance(p, ast.Try) and any(child is x for x in p.body):
+                for h in p.handlers:
+                    names = [u(h.type)] if h.type is not None and not isinstance(h.type, ast.Tuple) else ([u(x) for x in h.type.elts] if h.type is not None else ['*'])
+                    if set(names) & {'KeyError', 'LookupError', 'Exception', '*'}:
+                        return True
+            child = p
+            p = m.parents.get(p)
+        return False
 
     def _value_guarded(self, mn, fnode, node, operand, kind):
         """the operand (a plain name) was tested by an earlier `if <bad value>: raise/return` that
